@@ -259,7 +259,11 @@ func c05LibraryContexts(c C05Case, mask int, k, full interface{}, r *Rec) *Viola
 		if v != nil {
 			return v
 		}
-		return check("all-supplied", e, eval.NewCtxFromVars(cc, availVals), cc.VariableKeyMap)
+		ctx, v := safeNewCtx("C05", cc, availVals)
+		if v != nil {
+			return v
+		}
+		return check("all-supplied", e, ctx, cc.VariableKeyMap)
 	}
 	// (map) undefined-variable mode, or keys outside 0..255
 	um := *u
@@ -278,7 +282,10 @@ func c05LibraryContexts(c C05Case, mask int, k, full interface{}, r *Rec) *Viola
 	if v != nil {
 		return v
 	}
-	ctx := eval.NewCtxFromVars(cc, availVals)
+	ctx, v := safeNewCtx("C05", cc, availVals)
+	if v != nil {
+		return v
+	}
 	if v := check("map-backed", e, ctx, cc.VariableKeyMap); v != nil {
 		return v
 	}
@@ -317,7 +324,11 @@ func c05LibraryContexts(c C05Case, mask int, k, full interface{}, r *Rec) *Viola
 	for _, vd := range us.Vars[nAvail:] {
 		delete(ccA.VariableKeyMap, vd.Name)
 	}
-	return check("slice-backed-from-the-smaller-config", eB, eval.NewCtxFromVars(ccA, availVals), ccB.VariableKeyMap)
+	ctxA, v := safeNewCtx("C05", ccA, availVals)
+	if v != nil {
+		return v
+	}
+	return check("slice-backed-from-the-smaller-config", eB, ctxA, ccB.VariableKeyMap)
 }
 
 // freshnessFetcher embeds the library's map fetcher and overrides Cached (a TTL / freshness wrapper).
